@@ -151,6 +151,7 @@ func checkC04(c *Check) {
 	c04Exchange(c, R)
 	transportPreservesRequest(c, "C04.R2")
 	exchangeIsSentOnce(c, "C04.R2", R)
+	exchangeKeepsItsForm(c, "C04.R2", R)
 	// the client credentials sent are the ones configured now: the handler works on the shared configuration or its own
 	// per-check clone, never on a memoised copy (C19.R5)
 	handlerConfigOwn(c, "C04.R2", R)
@@ -159,6 +160,12 @@ func checkC04(c *Check) {
 	// reconcile replaced (C19.R3), and ignores an update only for the enumerated reasons (C19.R1)
 	if c.ID == "C04" {
 		importObls(c, "C18", checkC18, "C04.R2", func(o *Obligation) bool { return strings.HasPrefix(o.Key, "C18.R3/merge-into-own-copy") })
+		// "the session named by that request's cookie": the cookie reader selects the cookie by the filter's own cookie name,
+		// compared exactly (C18.R3) — a look-alike name outside the __Host- protection can be planted from a sibling domain
+		importObls(c, "C18", checkC18, "C04.R1", func(o *Obligation) bool { return strings.HasPrefix(o.Key, "C18.R3/cookie-selected-by-own-name") })
+		// a consumed login state cannot be used again: the clear removes a member without which the reader hands out no
+		// state at all (C12.R2) — a half-cleared state with an empty `state` member would match a callback with `state=`
+		importObls(c, "C12", checkC12, "C04.R4", func(o *Obligation) bool { return strings.HasPrefix(o.Key, "C12.R2/clear/") })
 		importObls(c, "C19", checkC19, "C04.R2", func(o *Obligation) bool {
 			return strings.HasPrefix(o.Key, "C19.R3/reconcile-does-not-rederive") || strings.HasPrefix(o.Key, "C19.R1/skip-reason") || strings.HasPrefix(o.Key, "C19.R2/value-is-the-datum-itself")
 		})
